@@ -1,14 +1,16 @@
 import Zc.Model.Wire.Encode
 import Zc.Model.Wire.Strict
+import Zc.Model.NameText
 namespace Zc.Driver.C01
 open Zc Zc.Wire Zc.Wire.Encode
 
 /-- the answers as `add_answer_at_time` would have stored them -/
 def accept (m : Msg) : Msg := { m with answers := m.answers.foldl (fun acc (r, now) => addAnswerAtTime acc r now) [] }
 
-/-- `enc <msg>` → `ok <hex> <hex> ...` | `err <PyExc>` -/
+/-- `enc <msg>` → `ok <hex> <hex> ...` | `err <PyExc>`.  A name token is a label list (`61.62`) or the **text** of the
+name (`=<hex of its UTF-8>`), which the model strips, splits and encodes itself (`NameText.labelsOfText`). -/
 def enc (toks : List String) : String :=
-  match (do let m ← Msg.parse; Tok.done; pure (accept m) : Tok Msg).run toks with
+  match (do let m ← Msg.parseN NameText.Tok.nameT; Tok.done; pure (accept m) : Tok Msg).run toks with
   | some (m, _) =>
     match packets m with
     | .ok pks => "ok " ++ " ".intercalate (pks.map hexOfBytes)
@@ -17,7 +19,7 @@ def enc (toks : List String) : String :=
 
 /-- `onwire <msg>` → the specification's view of the message: `<WMsg line>` with id/flags as given -/
 def onwire (toks : List String) : String :=
-  match (do let m ← Msg.parse; Tok.done; pure (accept m) : Tok Msg).run toks with
+  match (do let m ← Msg.parseN NameText.Tok.nameT; Tok.done; pure (accept m) : Tok Msg).run toks with
   | some (m, _) =>
     let w : WMsg := ⟨(if m.multicast then 0 else m.id), m.flags, m.questions.map (EQuestion.onWire m.multicast),
       m.answers.map (fun (r, now) => r.onWire m.multicast now), m.authorities.map (fun r => r.onWire m.multicast 0),
